@@ -10,23 +10,23 @@ import (
 
 func scenarios(quick bool) []sigh.Scen {
 	s := []sigh.Scen{
-		{"honest", [][]string{{"attach:a1:A:B", "send:a1:m1"}, {"attach:b1:B:A", "send:b1:n1"}}},
-		{"foreign-key", [][]string{{"attach:a1:A:B", "sendas:a1:m1:C"}, {"attach:b1:B:A"}}},
-		{"tampered", [][]string{{"attach:a1:A:B", "sendbad:a1:m1", "send:a1:m2"}, {"attach:b1:B:A"}}},
-		{"claims-partner", [][]string{{"attach:a1:A:B", "sendclaim:a1:m1:B"}, {"attach:b1:B:A"}}},
+		{"honest", [][]string{{"attach:a1:A:B", "wait", "send:a1:m1"}, {"attach:b1:B:A", "wait", "send:b1:n1"}}},
+		{"foreign-key", [][]string{{"attach:a1:A:B", "wait", "sendas:a1:m1:C"}, {"attach:b1:B:A"}}},
+		{"tampered", [][]string{{"attach:a1:A:B", "wait", "sendbad:a1:m1", "send:a1:m2"}, {"attach:b1:B:A"}}},
+		{"claims-partner", [][]string{{"attach:a1:A:B", "wait", "sendclaim:a1:m1:B"}, {"attach:b1:B:A"}}},
 		{"future-epoch", [][]string{{"attach:a1:A:B", "sende:a1:m1:3"}, {"attach:b1:B:A"}}},
 		{"stale-then-current", [][]string{{"attach:a1:A:B", "sende:a1:m1:1", "sende:a1:m2:2"}, {"attach:b1:B:A"}}},
 		{"no-init", [][]string{{"noinit:a1:A:B"}, {"attach:b1:B:A"}}},
 		{"third-party-lite", [][]string{{"attach:a1:A:B"}, {"attach:c1:C:A", "sende:c1:x1:1", "sende:c1:x2:2"}}},
-		{"bogus-acks", [][]string{{"attach:a1:A:B", "send:a1:m1"}, {"attach:b1:B:A", "acke:b1:7:2", "cleare:b1:7:2"}}},
+		{"bogus-acks", [][]string{{"attach:a1:A:B", "wait", "send:a1:m1"}, {"attach:b1:B:A", "acke:b1:7:2", "cleare:b1:7:2"}}},
 	}
 	if !quick {
 		s = append(s,
-			sigh.Scen{"third-party", [][]string{{"attach:a1:A:B", "send:a1:m1"}, {"attach:b1:B:A"}, {"attach:c1:C:A", "sende:c1:x1:1", "sende:c1:x2:2"}}},
-			sigh.Scen{"foreign-then-honest-reattach", [][]string{{"attach:a1:A:B", "sendas:a1:m1:C", "attach:a2:A:B", "send:a2:m2"}, {"attach:b1:B:A"}}},
+			sigh.Scen{"third-party", [][]string{{"attach:a1:A:B", "wait", "send:a1:m1"}, {"attach:b1:B:A"}, {"attach:c1:C:A", "sende:c1:x1:1", "sende:c1:x2:2"}}},
+			sigh.Scen{"foreign-then-honest-reattach", [][]string{{"attach:a1:A:B", "wait", "sendas:a1:m1:C", "attach:a2:A:B", "wait", "send:a2:m2"}, {"attach:b1:B:A"}}},
 			sigh.Scen{"future-epoch-after-reattach", [][]string{{"attach:a1:A:B", "sende:a1:m1:5"}, {"attach:b1:B:A", "cancel:b1", "attach:b2:B:A"}}},
-			sigh.Scen{"cross-pair", [][]string{{"attach:a1:A:B", "send:a1:m1"}, {"attach:b1:B:C", "send:b1:n1"}, {"attach:c1:C:B", "send:c1:x1"}}},
-			sigh.Scen{"claims-third", [][]string{{"attach:a1:A:B", "sendclaim:a1:m1:C"}, {"attach:b1:B:A"}, {"attach:c1:C:B"}}},
+			sigh.Scen{"cross-pair", [][]string{{"attach:a1:A:B", "wait", "send:a1:m1"}, {"attach:b1:B:C", "wait", "send:b1:n1"}, {"attach:c1:C:B", "wait", "send:c1:x1"}}},
+			sigh.Scen{"claims-third", [][]string{{"attach:a1:A:B", "wait", "sendclaim:a1:m1:C"}, {"attach:b1:B:A"}, {"attach:c1:C:B"}}},
 		)
 	}
 	return s
@@ -41,6 +41,7 @@ func TestC20(t *testing.T) {
 	}
 	sigh.ExploreS1(t, run, agg, "V20:", scenarios(run.Quick()), bound)
 	agg.Finish(true)
+	agg.RequireTag("saw RecvMsg")
 	run.Cov["preemption_bound"] = bound
 	run.Assumptions = append(run.Assumptions,
 		"clients (honest and malicious) are harness script threads speaking the raw Session stream; identities come from the stream context as with NewServerWithIdentify",
